@@ -456,6 +456,7 @@ structure TDrv where
   pingOk  : Bool := true                -- the server answers PING with PONG (only in link state `up`)
   forged  : Option Forged := none       -- the server answers EVALSHA without running the script
   lost    : Option LostKind := none     -- THIS call loses its reply after the script ran
+  outages : Nat → Nat := fun _ => 0     -- how often each instance has left the shared bucket (redisAlive 1 → 0)
   iv      : Nat → IvState := fun _ => ⟨0, 0⟩   -- bounds on the empty time of each instance's local bucket (wall-clock sections)
 
 def tokDump (c : TCfg) (s : Store) : String := s!"{dumpKey s "tok" c.k1} {dumpKey s "ts" c.k2}"
@@ -483,6 +484,8 @@ def tokAllow (c : TCfg) (d : TDrv) (i ns n : Nat) (implOk : Option Bool) : TDrv 
   -- exact deficit of exactly one ns: the float computation of x/time/rate may round either way
   let boundary := res.2.route = .rescue && c.ival ≠ 0 && n ≤ c.burst &&
     ((if inst.alive then inst.startMonitor else inst).rescue.after c ns n == -1)
+  let d := if inst.alive && !(res.1.insts i).alive then
+      { d with outages := fun j => if j = i then d.outages i + 1 else d.outages j } else d
   match implOk with
   | some true =>
     if boundary && !res.2.ok then
@@ -512,8 +515,11 @@ def localGrant (c : TCfg) (burst rate : Nat) (r : Report) (s : Section) (l : Lin
   if !d.rmono i then (d, r) else
   let m := (d.local_ i).add 1 ns (n * c.ival)
   let d := { d with local_ := fun j => if j = i then m else d.local_ j }
+  let r := if d.outages i ≥ 2 then r.addCover "t-local-grant-in-a-later-outage-of-a-flapping-store" else r
   if m.level > burst * c.ival + d.slack i then
-    (d, r.violation s.idx l.idx s!"token: instance {i} alone exceeds burst + L*elapsed with its local limiter (rate={rate} burst={burst} ival={c.ival}ns): {m.level} > {burst * c.ival}")
+    -- `local_bucket_survives_outages`: ONE local bucket per instance for its whole life, however often the store flaps
+    let across := if d.outages i ≥ 2 then s!" ACROSS {d.outages i} outages (the local bucket must survive between outages: it is built once, by the constructor)" else ""
+    (d, r.violation s.idx l.idx s!"token: instance {i} alone exceeds burst + L*elapsed with its local limiter{across} (rate={rate} burst={burst} ival={c.ival}ns): {m.level} > {burst * c.ival}")
   else (d, r)
 
 /-- `g` tokens granted jointly by the store at second `sec`: the joint meter -/
